@@ -312,6 +312,21 @@ def run_scenario(defs, ops, watch):
             bad.append(("cancelled-without-cancel", f"call {i} ended cancelled although the caller never cancelled it"))
         if i in b.cancelled and tk.done() and st != "cancelled" and not st.startswith("err:notEstablished"):
             pass  # a cancel that lands after the coroutine already returned is not a cancel of the call
+    # a call whose stop message had been dispatched completes with its result, even when the connection closes before the caller
+    # gets to run again
+    for i, tk in b.tasks.items():
+        st = b.status(i)
+        if st.startswith("err:conn") and i not in b.direct_write_fail:
+            to_, acc_, stp_, types_ = defs[i]
+            pa, ps = pred(acc_), pred(stp_)
+            for t_, tag_ in b.msgs_since[i]:
+                if t_ not in types_:
+                    continue
+                m_ = TY[t_](key=tag_)
+                if ps is None or ps(m_):
+                    bad.append(("completed-call-failed", f"call {i} ended as {st} although the message that completes it (type {t_}, key {tag_}) had "
+                                                         "been dispatched before the connection closed"))
+                    break
     all_done = all(tk.done() for tk in b.tasks.values())
     if all_done:
         leftover = {t: len(conn._message_handlers.get(TY[t], ())) - b.base_handlers.get(TY[t], 0) - b.oneshots.get(t, 0) for t in watch}
